@@ -138,6 +138,8 @@ def spec_tuples():
         for d in sorted(deltas):
             if d + size <= 65536 and (d + size <= 48 or d >= 65536 - 2 * size):
                 t.append((size, d))
+    # size 32: only the two offsets used by the one-lane harnesses of C15
+    t += [(32, 0), (32, 32)]
     return t
 
 
